@@ -209,6 +209,7 @@ type HarnessCfg struct {
 	MaxPaths  int            `json:"max_paths"`
 	IncTimeoutMs   int       `json:"inc_timeout_ms"`
 	FreshTimeoutMs int       `json:"fresh_timeout_ms"`
+	Solver         string    `json:"solver"`
 }
 
 func (e *Engine) fresh(prefix string) string {
